@@ -223,6 +223,7 @@ def shapes_of(rng, mcv, is_jumbo, args):
 
 def run(chk):
     chk.trusted_base = common.BASE_TRUST + [
+        "translate/units/footprint.py + _stagec.py (havoc mode): the handlers of ovni/event.c, ovni/mark.c and the pre_task chains of nosv/event.c and nanos6/event.c are rendered into coq/Gen/Foot_gen.v on every run with explicit bounds-checked payload reads; everything but the event is an arbitrary oracle (coq/Emu/FootPre.v); the translator checks that untranslated callees can only receive the event if they never mention `payload`; clang's AST and the Python printer are trusted",
         "translator translate/c2gallina.py (clang JSON AST -> Gallina) for ovni_ev_size, ovni_payload_size, get_jumbo_payload_size (unit loader) and next_ev_size (unit loader_step); struct layout and constants evaluated by the compiler; validated each run against the compiled C (harness/loader_h.c Z lines)",
         "hand model of stream.c load_obs/check_stream_header/stream_step (coq/Emu/StreamDefs.v) validated each run against the real stream.c in process (harness/loader_h.c, guard pages on both sides of the buffer) and through ovnidump/ovniemu",
         "hand-written read footprints of the translated functions, proved sound against the translation (C19_footprint_*)",
@@ -233,7 +234,7 @@ def run(chk):
     chk.assumptions = ["stream->clock_offset = 0 (no clock offset table in the trace directory)",
                        "a stream file is smaller than 2^63 bytes",
                        "theorems are about the repaired stream_step (patches/fix-c19-stream-bounds.diff); on a tree without it the translator unit loader_step fails closed"]
-    broken = common.translate(["loader", "loader_step"])
+    broken = common.translate(["loader", "loader_step", "footprint"])
     fixed_tree = not any("unit=loader_step" in b for b in broken)
     if broken:
         chk.proof_broken = {"kind": "translator", "messages": broken}
